@@ -329,6 +329,29 @@ m("c06_report_sub_unguarded", "C06", r"R-PANIC\.report:reporting::SourceLocation
         } else {
             1
         };""", """        let width = (span.end_col - span.start_col).max(1);""")
+m("c07_pair_find_skips_capture", "C07", r"C07\.PAIR:parser:capture-blocks-break", "break/continue guard rewritten with find() that only looks for a ForLoop (captures are skipped)",
+  "tera/src/parsing/parser.rs", """                let mut in_loop = false;
+                for ctx in self.body_contexts.iter().rev() {
+                    if *ctx == BodyContext::ForLoop {
+                        in_loop = true;
+                        break;
+                    }
+                    if *ctx == BodyContext::Capture {
+                        return Err(Error::syntax_error(
+                            format!(
+                                "`{kw}` cannot be used inside a filter section, `set` block or component body"
+                            ),
+                            &self.current_span,
+                        ));
+                    }
+                }
+                if !in_loop {""", """                let innermost = self
+                    .body_contexts
+                    .iter()
+                    .rev()
+                    .find(|ctx| matches!(ctx, BodyContext::ForLoop));
+                let in_loop = matches!(innermost, Some(BodyContext::ForLoop));
+                if !in_loop {""")
 m("c07_pair_blocks_pop", "C07", r"C07\.PAIR:vm:blocks-push-pop", "block stack popped after the error check",
   "tera/src/vm/interpreter.rs", """                    state.current_block_name = old_block_name;
                     state.blocks.pop();
